@@ -352,9 +352,9 @@ func (g *G) matching(card bool) string {
 	default:
 		s = " ignoring (" + g.labelList() + ")"
 	}
-	if card && chance(t, 1, 3, "group") {
+	if card && s != "" && chance(t, 1, 3, "group") {
 		gk := pick(t, []string{"group_left", "group_right"}, "groupside")
-		inc := ""
+		inc := " ()" // explicit: a parenthesised right operand would otherwise be read as the include list
 		if chance(t, 1, 2, "include") {
 			inc = " (" + g.labelList() + ")"
 		}
@@ -619,6 +619,10 @@ func (g *G) Query() (q string, typ string, cls Cls) {
 	d := g.p.MaxDepth - pick(t, []int{0, 0, 0, 1, 1, 2, 3}, "depthdrop")
 	if d < 1 {
 		d = 1
+	}
+	if g.p.Focus == "scalar" {
+		s, c := g.Scalar(g.p.MaxDepth, R)
+		return s, "scalar", c
 	}
 	if g.p.Focus != "" {
 		s, c := g.vectorProd(g.p.Focus, d, R)
